@@ -479,7 +479,7 @@ func genYTree(t *rapid.T, depth int) JNode {
 	case k < 7:
 		// (multi-line texts are rendered as literal block scalars: their trailing blanks and tabs belong to the value)
 		return JNode{K: "str", S: rapid.SampledFrom([]string{"abc", "hello world", "x", "some text", "value", "abc", "value",
-			"first line\nsecond line\n", "a hard break  \nnext paragraph\n", "col a\tcol b\t\nrow 2\t\n", "echo start\nmake test\n"}).Draw(t, "ystr")}
+			"Merge pull request #123 from feature/x", "see issue #7: it's done", "first line\nsecond line\n", "a hard break  \nnext paragraph\n", "col a\tcol b\t\nrow 2\t\n", "echo start\nmake test\n"}).Draw(t, "ystr")}
 	case k < 9:
 		return JNode{K: "num", Num: strconv.Itoa(rapid.IntRange(0, 999).Draw(t, "ynum"))}
 	default:
@@ -562,6 +562,9 @@ func yamlBlock(text, indent string) string {
 func yamlScalar(n JNode) string {
 	switch n.K {
 	case "str":
+		if strings.Contains(n.S, " #") || strings.Contains(n.S, ": ") {
+			return "'" + strings.ReplaceAll(n.S, "'", "''") + "'" // single quoted, as helm / kubectl emit such strings
+		}
 		return n.S
 	case "num":
 		return n.Num
